@@ -113,9 +113,9 @@ def check(pid, tier, build, props):
         violations.append({"graph": f["graph"], "payload": f["payload"],
                            "stage": snap.stages.STAGES[f["stage"]], "rejected_by": rej, "witness": w})
     kn, kok, kerr = kernel_sample(pid, sn, 6 if tier == "quick" else 60)
-    problems = []
-    if not build["ok"]:
-        problems.append("Coq build failed: " + ", ".join(build["failed_files"]))
+    from . import build as buildmod
+
+    problems = buildmod.relevant_failures(pid, build)
     if build["forbidden"]:
         problems.append("forbidden vernacular: " + "; ".join(build["forbidden"][:3]))
     if not props["ok"]:
